@@ -232,6 +232,8 @@ def check(model, rep, tier):
                                'analyzer_switches': len(switch)},
             line=vf.node.lineno, witness='x = 1; def h(a=x): return a')
 
+  rules_trav.cursor_scoped(model, rep, 'RD-ANNOT', RD, 'TreeAnnotator')
+
   # ---------------------------------------------------------------- dependencies
   rep.depends('C05', None,
               'reaching definitions are propagated along the edges of this graph: '
